@@ -71,7 +71,8 @@ theorem leaf_table_nonempty :
 
 /-- **Pre-filter soundness** for every pattern (all combinators, `MNOT` included): a node that matches has a kind the
 pre-filter keeps.  (`MNOT._leaf_asts` complements the inner leaf set only for type-only inner patterns — a class, `...`,
-`MTYPES` without fields — for which that set is exact; before the repair this was false, finding C17-F1.) -/
+`MTYPES` without fields — for which that set is exact; before the repair this was false, finding C17-F1.  A `Load()` /
+`Store()` / `Del()` instance, which matches every `expr_context`, has the leaf set of `expr_context`; finding C17-F6.) -/
 theorem prefilter_sound (K : Kinds) (p : Pat) (ctx : TEnv) (t : Tree) (e : TEnv)
     (la : List Nat) (hk : TargetOK K t.kind) (hl : leafAsts K p = some la) (hm : matchNode K p ctx t = some e) :
     t.kind ∈ la :=
@@ -79,6 +80,9 @@ theorem prefilter_sound (K : Kinds) (p : Pat) (ctx : TEnv) (t : Tree) (e : TEnv)
 
 private def nameY : Tree := .node 0 Pfst.Gen.Leaf.kName [.node 1 1000 [], .node 2 Pfst.Gen.Leaf.kLoad []]
 private def notNameX : Pat := .mnot (.node Pfst.Gen.Leaf.kName [.node 1001 [], .wild]) none []
+
+-- the former counterexample C17-F6: `search(Store())` finds the `Load` node that `match(Store())` accepts
+example : (search Pfst.Gen.Leaf.kinds .ctxInst nameY).map Tree.id = [2] := by decide +kernel
 
 -- the former counterexample: `MNOT(MName('x'))` matches the node `y`, and `search` now finds it
 example : (search Pfst.Gen.Leaf.kinds notNameX nameY).map Tree.id = [0, 2] ∧
